@@ -302,6 +302,52 @@ impl Property for Soundness {
                 stats.sample(10, || json!({"program": text, "outcome": run.outcome.short()}));
                 self.judge(&format!("`{text}`"), &run, stats).unwrap_or(Verdict::Pass)
             }
+            "session" => {
+                // inputs parsed and run one after the other into one interpreter, as a REPL or an embedding
+                // host does; the session goes on after a documented run-time error: whatever an input that
+                // failed left behind, the inputs after it neither panic nor meet ill-typed cell contents
+                let inputs: Vec<&str> = case["inputs"].as_array().map(|a| a.iter().filter_map(|i| i.as_str()).collect()).unwrap_or_default();
+                let mut interp = exec::safe_interpreter();
+                let mut failed = false;
+                for (k, input) in inputs.iter().enumerate() {
+                    crate::run::default_budget();
+                    let code = match crate::run::parse_guarded(&interp, input) {
+                        Ok(Ok(code)) => code,
+                        Ok(Err(_)) => continue,
+                        Err(o) => {
+                            let run = exec::Run { outcome: o, log: Default::default(), static_type: None };
+                            return self.judge(&format!("input {k} `{input}` of the session {inputs:?}"), &run, stats).unwrap_or(Verdict::Pass);
+                        }
+                    };
+                    let (outcome, mut log) = if self.monitor() {
+                        exec::monitored(|| crate::run::exec_unscoped_guarded(&code, &mut interp))
+                    } else {
+                        (crate::run::exec_unscoped_guarded(&code, &mut interp), Default::default())
+                    };
+                    if self.monitor() {
+                        for name in ["c", "cs", "s", "d"] {
+                            if let Some(v) = interp.get_variable(name)
+                                && let Some(why) = crate::ty::cells_ok(v, 0)
+                            {
+                                log.violations.push(exec::TypeViolation { sig: "C01:cell-content".into(), msg: format!("`{name}` after the input: {why}") });
+                            }
+                        }
+                    }
+                    if matches!(outcome, Outcome::ExecError(_)) {
+                        failed = true;
+                    }
+                    let run = exec::Run { outcome, log, static_type: None };
+                    if failed {
+                        self.nontrivial(&format!("{inputs:?}#{k}"), &run, stats);
+                    }
+                    if let Some(v) = self.judge(&format!("input {k} `{input}` of the session {inputs:?}"), &run, stats) {
+                        return v;
+                    }
+                }
+                stats.label(if failed { "session continued after a run-time error" } else { "session without a run-time error" });
+                stats.sample(4, || json!({"session": inputs}));
+                Verdict::Pass
+            }
             "fs" => {
                 // a std.fs call on a scratch tree, written in the language, and a match with one arm per
                 // member of the declared result type: whatever the operating system answers (also errors
@@ -334,6 +380,39 @@ impl Property for Soundness {
             _ => Verdict::Discard("unknown kind"),
         }
     }
+}
+
+/// sessions in which an input fails with a documented error in the middle of an update of a cell, and
+/// later inputs go on using the cell (every fallible assignment operator x every way of holding a cell)
+pub fn error_sessions() -> Vec<Json> {
+    let holders = [
+        ("c := mut 7;", "c"),
+        ("cs := [mut 7, mut 8];", "cs[0]"),
+        ("s := struct{k := mut 7};", "s.k"),
+        ("d := mut 7; c := d;", "c"),
+    ];
+    let failing = [("/=", "zero()"), ("%=", "zero()"), ("<<=", "zero() + 64"), (">>=", "zero() - 1"), ("**=", "zero() - 1"), ("+=", "[1][zero() + 5]"), ("=", "7 / zero()")];
+    let mut out = vec![];
+    for (decl, x) in holders {
+        for (op, bad) in failing {
+            let fail_now = format!("{x} {op} {bad}");
+            let inputs = vec![
+                "zero := () -> int { return 0; };".to_string(),
+                decl.to_string(),
+                fail_now.clone(),
+                format!("{x} += 1; *{x}"),
+                format!("{x} /= 2; *{x}"),
+                format!("g := () -> int {{ {fail_now}; return *{x}; }};"),
+                "g()".to_string(),
+                format!("(*{x} + 1, [*{x}][0] - 1)"),
+                format!("{x} **= 2; {x} <<= 1; {x} %= 5; *{x}"),
+                "g()".to_string(),
+                format!("{x} = 3; {x} *= 3"),
+            ];
+            out.push(json!({"kind": "session", "inputs": inputs}));
+        }
+    }
+    out
 }
 
 pub fn run(session: &Session, prop: &'static Soundness) -> i32 {
@@ -402,6 +481,9 @@ pub fn run(session: &Session, prop: &'static Soundness) -> i32 {
     for text in crate::genr::nearmiss::string_spelling_programs() {
         cases.push(json!({"kind": "near-miss", "text": text}));
     }
+    for text in crate::genr::nearmiss::duplicate_name_programs() {
+        cases.push(json!({"kind": "near-miss", "text": text}));
+    }
     {
         for x in 0..CATALOGUE.len() {
             for y in 0..CATALOGUE.len() {
@@ -415,6 +497,7 @@ pub fn run(session: &Session, prop: &'static Soundness) -> i32 {
         }
     }
     cases.extend(crate::props::c18::fs_cases());
+    cases.extend(error_sessions());
     session.set_extra("enumerated_cases", json!(cases.len()));
     if !session.stopped() {
         session.run_enum(prop, cases);
